@@ -627,7 +627,9 @@ def run_script(exe, loader, cfg, np_, nt, sched, lockmode="exclusive", base=None
 
 
 def run_random(exe, loader, cfg, np_, nt, rnd, maxcrashes=0, pcrash=0.0, pprobe=0.3, lockmode="exclusive", base=None,
-               maxsteps=5000):
+               maxsteps=5000, policy=None):
+    """policy "eager": threads that hold a job evaluate/report first; "lazy": they go last (other threads sync while
+    the job is still being processed); None: uniform"""
     co = Coordinator(exe, loader, cfg, np_, nt, lockmode, base=base)
     outcome = "ok"
     try:
@@ -661,8 +663,18 @@ def run_random(exe, loader, cfg, np_, nt, rnd, maxcrashes=0, pcrash=0.0, pprobe=
                 outcome = "deadlock"
                 co.issues.append(("protocol:deadlock", "no thread can be scheduled: pcs=%s lock=%s" % (co.pcs(), sorted(co.lock))))
                 break
+            if policy:
+                holding = [o for o in opts if co.actors[o].pc in ("took", "evaled")]
+                pref = holding if policy == "eager" else [o for o in opts if o not in holding]
+                opts = pref or opts
             p, t = rnd.choice(opts)
             co.step(p, t)
+            if len(set(co.execlog)) != len(co.execlog):
+                # the same process evaluates the same job again: no need to see how often (it may never end)
+                dup = [e for e in co.execlog if co.execlog.count(e) > 1][0]
+                co.issues.append(("AtMostOncePerRun", "process %d is handed job %d a second time in the same run" % dup))
+                outcome = "re-execution"
+                break
         co.trace.append({"e": "end"})
         return {"trace": co.trace, "issues": co.issues, "outcome": outcome, "stopped": co.all_stopped(), "final": co.state(),
                 "overlap": co.max_lock > 1, "blocked": co.nblocked}
